@@ -188,7 +188,10 @@ fn drive<T: Transport>(t: T, p: &ConParams, rng: &mut SmallRng) -> String {
 }
 
 pub fn run(p: &ConParams, sc: &str) -> (Vec<Vec<String>>, Value) {
+    // every third scenario runs on a platform that maps buffers in place (no bounce copies)
+    INPLACE_MODE.with(|m| m.set(p.seed % 3 == 0));
     reset_world();
+    INPLACE_MODE.with(|m| m.set(false));
     let mut rng = SmallRng::seed_from_u64(p.seed);
     engine::install(Box::new(ConPers { input: VecDeque::new(), written: 0 }), policy_of(&p.policy), p.seed ^ 0xc0, true);
     let t = tmake::make(&p.transport, "console", p.offered, p.legacy, 32768, crate::zoo::config_space("console"));
